@@ -30,6 +30,8 @@ type reply19 struct {
 type vec19 struct {
 	Keys    []string  `json:"keys"`
 	TLS     bool      `json:"tls"`
+	Sv      string    `json:"sv"`      // submit variant
+	Outcome string    `json:"outcome"` // accepted | refused | failed_after_alloc | crashed_after_alloc
 	Ops     []string  `json:"ops"`
 	Replies []reply19 `json:"replies"`
 	Unit    string    `json:"unit"`
@@ -107,6 +109,8 @@ func (e *env19) newHist(idx int, v vec19, seed int64) *hist19 {
 		if idx%3 == 0 {
 			h.target, h.reach = "ghost19", false
 		}
+	case v.Sv != "ok" && v.Sv != "":
+		h.target = "ghost19" // the variants are about the submitting node only
 	case idx%4 == 0 && v.TLS:
 		h.target, h.reach, h.relaxed = e.m2.ID, true, true
 	case idx%4 == 0:
@@ -140,6 +144,27 @@ func excerpt(b []byte, mk string) string {
 	return string(b[lo:hi])
 }
 
+// unitIDs lists the ids D knows (over a fresh Unix session).
+func (e *env19) unitIDs() (map[string]bool, error) {
+	for attempt := 0; ; attempt++ {
+		wl, l, err := e.d.WorkList(e.to)
+		if err == nil {
+			ids := map[string]bool{}
+			for id := range wl {
+				ids[id] = true
+			}
+
+			return ids, nil
+		}
+		if attempt > 5 || !strings.HasPrefix(l, "ERROR: unknown work unit") {
+			return nil, err
+		}
+		time.Sleep(100 * time.Millisecond)
+	}
+}
+
+// submit runs the submit variant of the history and judges the first reply; for the variants that leave a unit behind
+// without telling its id (malformed ttl, crash between the allocation steps) the id is found by comparing the unit list.
 func (e *env19) submit(h *hist19) {
 	f := map[string]string{"node": h.target, "worktype": "rtype"}
 	for k, v := range h.values {
@@ -148,34 +173,155 @@ func (e *env19) submit(h *hist19) {
 	if h.v.TLS {
 		f["tlsclient"] = "tc"
 	}
-	id, recv, err := e.d.Submit(f, "payload\n", e.to)
-	h.unit = id
-	if id != "" {
-		e.units[id] = true
+	sv := h.v.Sv
+	rng := rand.New(rand.NewSource(int64(h.idx)*7 + 3))
+	switch sv {
+	case "ttl_ok":
+		f["ttl"] = []string{"1h", "90m", "1h30m10s"}[rng.Intn(3)]
+	case "ttl_past":
+		f["ttl"] = []string{"1ns", "-1s", "0s"}[rng.Intn(3)]
+	case "ttl_bad":
+		f["ttl"] = []string{"10 minutes", "abc", "5", "1h30", "1d", " 1h"}[rng.Intn(6)]
+	case "tls_unknown":
+		f["tlsclient"] = "noprofile" + randID(rng, 4)
 	}
-	h.trace = append(h.trace, map[string]any{"op": "submit", "target": h.target, "tls": h.v.TLS, "reply": trunc(string(recv), 300)})
-	e.scan("submit-reply", recv, h)
-	want := h.v.Replies[0].Reply
-	got := "created"
-	if err != nil || id == "" {
-		got = "error"
-		if !bytes.Contains(recv, []byte("ERROR")) {
-			e.res.inconclusive("submit of history %d got neither a unit nor an ERROR: %v %q", h.idx, err, trunc(string(recv), 200))
+	var before map[string]bool
+	var err error
+	needDiff := sv == "ttl_bad" || sv == "crash_mid" || sv == "tls_unknown"
+	if needDiff {
+		if before, err = e.unitIDs(); err != nil {
+			e.res.inconclusive("work list failed before a %s submit: %v", sv, err)
 			h.dead = true
 
 			return
 		}
 	}
+	if sv == "crash_mid" {
+		// the daemon is restarted so that it dies at the crash point between the two steps of AllocateRemoteUnit
+		e.d.Env = []string{"VERIF_CRASH_AT=alloc_after_save"}
+		err = e.d.Restart(40 * time.Second)
+		e.d.Env = nil
+		if err != nil {
+			e.res.inconclusive("restart with crash point failed: %v", err)
+			h.dead = true
+
+			return
+		}
+		e.res.count("daemon_restarts")
+	}
+	var id string
+	var recv []byte
+	if sv == "abort_stdin" {
+		m := map[string]string{"command": "work", "subcommand": "submit"}
+		for a, b := range f {
+			m[a] = b
+		}
+		j, _ := json.Marshal(m)
+		k, derr := ctl.DialUnix(e.d.Sock, e.to)
+		if derr == nil {
+			_ = k.Send(append(j, '\n'))
+			l, _ := k.ReadLine(e.to)
+			const pre = "Work unit created with ID "
+			if strings.HasPrefix(l, pre) {
+				id = strings.SplitN(strings.TrimPrefix(l, pre), ".", 2)[0]
+			}
+			k.Close() // the client goes away without sending stdin
+			recv = k.Received()
+		}
+		err = derr
+		if id == "" && err == nil {
+			err = fmt.Errorf("refused")
+		}
+	} else {
+		id, recv, err = e.d.Submit(f, "payload\n", e.to)
+	}
+	h.unit = id
+	if id != "" {
+		e.units[id] = true
+	}
+	h.trace = append(h.trace, map[string]any{"op": "submit", "variant": sv, "target": h.target, "tls": h.v.TLS, "ttl": f["ttl"], "tlsclient": f["tlsclient"], "reply": trunc(string(recv), 300)})
+	e.scan("submit-reply", recv, h)
+	want := h.v.Replies[0].Reply
+	got := "created"
+	crashed := false
+	if sv == "crash_mid" {
+		// either the submission was refused before the allocation (daemon alive, ERROR) or the daemon died at the crash point
+		for i := 0; i < 100 && e.d.Alive() && !bytes.Contains(recv, []byte("ERROR")); i++ {
+			time.Sleep(50 * time.Millisecond)
+		}
+		crashed = !e.d.Alive()
+		if rerr := e.d.Restart(40 * time.Second); rerr != nil { // also disarms the crash point
+			e.res.inconclusive("restart after the crash point failed: %v", rerr)
+			h.dead = true
+
+			return
+		}
+		e.res.count("daemon_restarts")
+		if crashed {
+			got = "none"
+			e.res.count("crashed_between_allocation_steps")
+		}
+	}
+	if !crashed && (err != nil || id == "") {
+		got = "error"
+		if !bytes.Contains(recv, []byte("ERROR")) {
+			e.res.inconclusive("submit of history %d (%s) got neither a unit nor an ERROR: %v %q", h.idx, sv, err, trunc(string(recv), 200))
+			h.dead = true
+
+			return
+		}
+	}
+	replay := map[string]any{"vector": h.v, "keys": h.names, "trace": h.trace}
 	if got != want {
-		sig := "C19:submit-" + got + "-instead-of-" + want
-		if want == "error" {
+		sig := "C19:submit-" + got + "-instead-of-" + want + "-" + sv
+		if want == "error" && h.v.Outcome == "refused" && sv != "tls_unknown" {
 			sig = "C19:secret-accepted-without-tls"
 		}
-		e.res.violate(sig, fmt.Sprintf("submit with keys %v tls=%v: spec says %s, daemon answered %q", keysOf(h), h.v.TLS, want, trunc(string(recv), 200)),
-			map[string]any{"vector": h.v, "keys": h.names, "trace": h.trace})
+		e.res.violate(sig, fmt.Sprintf("submit (%s) with keys %v tls=%v: spec says %s, daemon answered %q", sv, keysOf(h), h.v.TLS, want, trunc(string(recv), 200)), replay)
 		h.dead = true
+
+		return
 	}
-	if got == "error" {
+	if needDiff {
+		after, lerr := e.unitIDs()
+		if lerr != nil {
+			e.res.inconclusive("work list failed after a %s submit: %v", sv, lerr)
+			h.dead = true
+
+			return
+		}
+		var fresh []string
+		for u := range after {
+			if !before[u] {
+				fresh = append(fresh, u)
+				e.units[u] = true
+			}
+		}
+		left := h.v.Outcome == "failed_after_alloc" || h.v.Outcome == "crashed_after_alloc"
+		switch {
+		case h.v.Outcome == "refused" && len(fresh) > 0:
+			e.res.violate("C19:unit-created-by-refused-submit-"+sv, fmt.Sprintf("a submission refused before the allocation (%s, keys %v, tls=%v) left unit %v behind", sv, keysOf(h), h.v.TLS, fresh), replay)
+			h.dead = true
+
+			return
+		case left && len(fresh) == 1:
+			h.unit = fresh[0] // the unit left behind by the failed submit
+			e.res.count("left_behind_units_found")
+		case left && len(fresh) == 0:
+			// the code no longer leaves the unit behind: fine for this property, nothing to look at
+			e.res.count("left_behind_unit_absent")
+			e.res.note("submit variant %s left no unit behind (the specification models the code as found, where it does)", sv)
+			h.dead = true
+
+			return
+		case left:
+			e.res.inconclusive("cannot tell which of %v was left behind by the %s submit", fresh, sv)
+			h.dead = true
+
+			return
+		}
+	}
+	if h.v.Unit == "none" {
 		h.dead = true
 	}
 }
@@ -193,7 +339,7 @@ func keysOf(h *hist19) []string {
 // doOp performs operation i (1-based) of the history and judges the reply against the vector.
 func (e *env19) doOp(h *hist19, i int) {
 	op := h.v.Ops[i-1]
-	exp := h.v.Replies[i]
+	exp := h.v.Replies[len(h.v.Replies)-len(h.v.Ops)+i-1] // the submit may have more than one reply entry (list_mid)
 	var line string
 	switch op {
 	case "status":
@@ -312,7 +458,7 @@ func (e *env19) doOp(h *hist19, i int) {
 			return
 		}
 	}
-	if wt, _ := st["WorkType"].(string); wt == "" && contains(h.v.Ops[:i-1], "restart") {
+	if wt, _ := st["WorkType"].(string); wt == "" && (contains(h.v.Ops[:i-1], "restart") || h.v.Sv == "crash_mid") {
 		// the status file was empty after the SIGKILL (truncate-then-write, DESIGN.md section 9 #11, properties C04/C14): the
 		// record is lost as a whole, nothing is disclosed; not this property's finding
 		e.res.count("record_lost_by_kill_during_status_write")
@@ -470,10 +616,58 @@ func restartPattern(ops []string) string {
 	return string(p)
 }
 
+// lister is "another session" that keeps asking for the unit list while submissions are in progress: a unit is
+// published after the first step of its allocation, so a list can see it half-made.
+func (e *env19) lister(stop chan struct{}, done chan struct{}) {
+	defer close(done)
+	dummy := &hist19{v: vec19{Sv: "listed_mid"}}
+	for {
+		select {
+		case <-stop:
+			return
+		default:
+		}
+		k, err := ctl.DialUnix(e.d.Sock, e.to)
+		if err != nil {
+			time.Sleep(50 * time.Millisecond)
+
+			continue
+		}
+		for i := 0; i < 50; i++ {
+			select {
+			case <-stop:
+				k.Close()
+
+				return
+			default:
+			}
+			if k.Send([]byte("work list\n")) != nil {
+				break
+			}
+			l, err := k.ReadLine(e.to)
+			if err != nil {
+				break
+			}
+			e.res.count("concurrent_lists")
+			if e.scan("concurrent-list-reply", []byte(l), dummy) {
+				k.Close()
+
+				return
+			}
+			time.Sleep(2 * time.Millisecond)
+		}
+		k.Close()
+	}
+}
+
 func (e *env19) runGroup(pattern string, hs []*hist19) error {
+	stop, done := make(chan struct{}), make(chan struct{})
+	go e.lister(stop, done)
 	for _, h := range hs {
 		e.submit(h)
 	}
+	close(stop)
+	<-done
 	for i := 1; i <= len(pattern); i++ {
 		if pattern[i-1] == 'R' {
 			// every history of the group restarts here: one restart of D serves them all
@@ -497,7 +691,8 @@ func (e *env19) runGroup(pattern string, hs []*hist19) error {
 		e.res.mu.Lock()
 		e.res.Evaluations++
 		e.res.mu.Unlock()
-		e.distinct[fmt.Sprintf("%v|%v|%v|%v", h.v.Keys, h.v.TLS, h.v.Ops, h.reach)] = true
+		e.distinct[fmt.Sprintf("%v|%v|%v|%v|%s", h.v.Keys, h.v.TLS, h.v.Ops, h.reach, h.v.Sv)] = true
+		e.res.count("variant_" + h.v.Sv)
 		if h.unit != "" && e.d.Alive() {
 			_, _ = e.d.Command("work force-release "+h.unit, 10*time.Second)
 		}
@@ -520,7 +715,8 @@ func cmdC19(args []string) {
 	work := fs.String("work", "", "scratch directory")
 	out := fs.String("out", "result.json", "result file")
 	seed := fs.Int64("seed", 1, "seed")
-	maxVec := fs.Int("max", 0, "replay at most this many histories (seeded stratified sample; 0 = all)")
+	maxVec := fs.Int("max", 0, "replay at most this many plain-submit histories (seeded sample; 0 = all)")
+	maxCrash := fs.Int("maxcrash", 0, "replay at most this many crash-between-allocation-steps histories (0 = all)")
 	replayFile := fs.String("replay", "", "replay file of a previous run")
 	_ = fs.Parse(args)
 	res := &Result{Counters: map[string]int{}}
@@ -537,7 +733,7 @@ func cmdC19(args []string) {
 	sort.Slice(vecs, func(i, j int) bool {
 		a, b := vecs[i], vecs[j]
 
-		return fmt.Sprint(a.Keys, a.TLS, a.Ops) < fmt.Sprint(b.Keys, b.TLS, b.Ops)
+		return fmt.Sprint(a.Sv, a.Keys, a.TLS, a.Ops) < fmt.Sprint(b.Sv, b.Keys, b.TLS, b.Ops)
 	})
 	total := len(vecs)
 	if *replayFile != "" {
@@ -556,12 +752,36 @@ func cmdC19(args []string) {
 		for i := 0; i < 8; i++ {
 			vecs = append(vecs, rp.Replay.Vector)
 		}
-	} else if *maxVec > 0 && len(vecs) > *maxVec {
+	} else if *maxVec > 0 || *maxCrash > 0 {
+		// the limits apply to the plain-submit histories and to the crash histories; the other submit variants are always replayed
 		rng := rand.New(rand.NewSource(*seed))
 		rng.Shuffle(len(vecs), func(i, j int) { vecs[i], vecs[j] = vecs[j], vecs[i] })
-		vecs = vecs[:*maxVec]
-		res.note("replayed a seeded sample of %d of %d exported histories", *maxVec, total)
+		var kept []vec19
+		nb, nc := 0, 0
+		for _, v := range vecs {
+			switch {
+			case (v.Sv == "ok" || v.Sv == "") && *maxVec > 0:
+				if nb++; nb > *maxVec {
+					continue
+				}
+			case v.Sv == "crash_mid" && *maxCrash > 0:
+				if nc++; nc > *maxCrash {
+					continue
+				}
+			}
+			kept = append(kept, v)
+		}
+		if len(kept) < len(vecs) {
+			res.note("replayed a seeded sample of %d of %d exported histories", len(kept), total)
+		}
+		vecs = kept
+		sort.Slice(vecs, func(i, j int) bool {
+			a, b := vecs[i], vecs[j]
+
+			return fmt.Sprint(a.Sv, a.Keys, a.TLS, a.Ops) < fmt.Sprint(b.Sv, b.Keys, b.TLS, b.Ops)
+		})
 	}
+	res.add("planned", len(vecs))
 	dir := filepath.Join(*work, "c19")
 	_ = os.RemoveAll(dir)
 	_ = os.MkdirAll(dir, 0o700)
@@ -643,16 +863,40 @@ func cmdC19(args []string) {
 		}
 		time.Sleep(100 * time.Millisecond)
 	}
-	var hs, refused []*hist19
+	var hs, refused, crashes []*hist19
 	for i, v := range vecs {
 		h := e.newHist(i, v, *seed)
-		if v.Unit == "none" && len(v.Ops) == 0 {
+		switch {
+		case v.Sv == "crash_mid":
+			crashes = append(crashes, h)
+		case v.Unit == "none" && len(v.Ops) == 0:
 			refused = append(refused, h)
-		} else {
+		default:
 			hs = append(hs, h)
 		}
 	}
 	e.refusedBatch(refused)
+	// histories whose submit dies between the two allocation steps: one daemon life each
+	for _, h := range crashes {
+		if !d.Alive() {
+			if err := d.Start(40 * time.Second); err != nil {
+				res.inconclusive("cannot restart %s: %v", d.ID, err)
+
+				return
+			}
+		}
+		e.submit(h)
+		for i := 1; i <= len(h.v.Ops) && !h.dead; i++ {
+			e.doOp(h, i)
+		}
+		res.mu.Lock()
+		res.Evaluations++
+		res.mu.Unlock()
+		e.distinct[fmt.Sprintf("%v|%v|%v|%s", h.v.Keys, h.v.TLS, h.v.Ops, h.v.Sv)] = true
+		if h.unit != "" && d.Alive() {
+			_, _ = d.Command("work force-release "+h.unit, 10*time.Second)
+		}
+	}
 	groups := map[string][]*hist19{}
 	for _, h := range hs {
 		p := restartPattern(h.v.Ops)
